@@ -415,6 +415,26 @@ def exhaustive(ctx):
                 compare(ctx, spell_tx.init_orig(spell.wb_from_form(f1)), spell_tx.init_orig(spell.wb_from_form(f2)),
                         [f"truth:settings:{col}:{plain[0]}->{v}"], "dict", tag="alias")
                 n += 1
+    # truth values, every pinned spelling incl. `true()` / `false()`, in the cells read through aliases.yes_no only
+    # (settings flags, legacy `disabled` column), on forms where the flag is observable: duplicate choice names
+    # (allow_choice_duplicates), double spaces + smart quotes (clean_text_values), the instanceID (omit_instanceID),
+    # a row that disappears (disabled).  Seed-independent; a dropped yes_no key gives a concrete workbook pair.
+    for pool in (spell.TRUE_SPELLINGS, spell.FALSE_SPELLINGS):
+        for v in pool[1:]:
+            for col in ("omit_instanceID", "allow_choice_duplicates", "clean_text_values", "add_none_option", "disabled"):
+                f1, f2 = base_form(), base_form()
+                for f, val in ((f1, pool[0]), (f2, v)):
+                    if col == "disabled":
+                        f["survey"][1][col] = val
+                    else:
+                        f["settings"][0][col] = val
+                    if col == "allow_choice_duplicates":
+                        f["choices"].append({"list_name": "l", "name": "a", "label": "A again"})
+                    if col == "clean_text_values":
+                        f["survey"][1]["label"] = "a  b ‘q’"
+                compare(ctx, spell_tx.init_orig(spell.wb_from_form(f1)), spell_tx.init_orig(spell.wb_from_form(f2)),
+                        [f"truth-yes_no:{col}:{pool[0]}->{v}"], "dict", tag="alias")
+                n += 1
     # sheet-name case x presence state of each optional sheet (with rows / header only) x file channel
     for sname, cols, row in (("settings", ["form_title", "form_id"], ["T", "fid"]), ("choices", ["list_name", "name", "label"], None),
                              ("entities", ["dataset", "label"], ["people", "concat(${t}, 'x')"]),
@@ -586,9 +606,72 @@ def directed(ctx):
 
 # --------------------------------------------------------------------------- explore / replay
 
+# pinned: the spellings `dealias_types` maps to one type (aliases._type_alias_map and its targets)
+DEALIAS_CLASSES = [
+    ["photo", "image", "add image prompt", "add photo prompt"],
+    ["deviceid", "imei"],
+    ["audio", "add audio prompt"],
+    ["video", "add video prompt"],
+    ["file", "add file prompt"],
+]
+
+
+def binds_retype(ctx):
+    """`formBinds_retype` on the code: for every pinned dealias class x small sheet shape, the bind model
+    (`Binds.formBinds`, driver op `binds.model`, the model tied by C05) answers alike for every spelling of the
+    type cell, and — where it answers `ok` — exactly the implementation's <bind> elements (paths, attributes,
+    values, in order) for every spelling."""
+    import impl
+    from pyxform import aliases
+
+    from props.c05 import NotWellFormed, observe_binds
+
+    shapes = [
+        ({}, ["type", "name", "label"]),
+        ({"bind::relevant": "1 = 1", "required": "yes"}, ["type", "name", "label", "bind::relevant", "required"]),
+        ({"Constraint": ". != ''", "bind::jr:constraintMsg": "bad", "read_only": "no"},
+         ["Type", "name", "label", "Constraint", "bind::jr:constraintMsg", "read_only"]),
+    ]
+    for cls in DEALIAS_CLASSES:
+        canon = {aliases._type_alias_map.get(t, t) for t in cls}
+        if len(canon) != 1:
+            # the table changed: the hypothesis of the theorem no longer holds for this class; the
+            # metamorphic / exhaustive streams (pinned TYPE_CLASSES) judge the implementation
+            ctx.count("binds-retype:class-not-dealiased-alike")
+            continue
+        for extra, cols in shapes:
+            tcol = cols[0]
+            outs = []
+            for t in cls:
+                for typed in (t, "  " + t.replace(" ", "  ") + " "):
+                    rows = [{tcol: "text", "name": "q0", "label": "Q0"}, {tcol: typed, "name": "q1", "label": "Q1", **extra},
+                            {tcol: "begin group", "name": "g", "label": "G"}, {tcol: typed, "name": "q2", "label": "Q2"},
+                            {tcol: "end group"}]
+                    form = {"survey": rows, "survey_cols": cols}
+                    m = ctx.driver.call("binds.model", headers=cols, rows=[[[k, v] for k, v in r.items()] for r in rows],
+                                        lists=[], root="data", dl="default")
+                    ctx.count("binds-retype:model:" + m["outcome"])
+                    outs.append(m)
+                    r = impl.run(form)
+                    if m["outcome"] == "ok":
+                        if not r["ok"]:
+                            ctx.mismatch("binds (retype): model ok, implementation rejects", {"form": form}, r.get("error"), m)
+                            continue
+                        try:
+                            obs = [[o[0], o[1]] for o in observe_binds(r["xform"])]
+                        except NotWellFormed:
+                            obs = None
+                        if obs != m["binds"]:
+                            ctx.mismatch("binds (retype): bind elements", {"form": form}, obs, m["binds"])
+            if any(o != outs[0] for o in outs):
+                ctx.mismatch("formBinds_retype instance: the bind model answers differently for two spellings of one type",
+                             {"class": cls, "cols": cols}, None, outs[:2])
+
+
 def explore(ctx, factor, bs):
     rng = ctx.rng
     spell_corr.run(ctx, ctx.pick(2500, 40000) * factor)
+    binds_retype(ctx)
     exhaustive(ctx)
     n = ctx.pick(700, 20000) * factor
     for i in range(n):
